@@ -38,7 +38,8 @@ Definition step (allow_raw : list string) (s : st) (t : tok) : st :=
       let s := if Nat.ltb 0 (wsec s) then flag s "second write in one section" else s in
       let s := if Nat.ltb (loop_at_lock s) (loop s) then flag s "write inside a loop" else s in
       St (in_lock s) (nlocks s) (loaded s) (S (wsec s)) (loop s) (loop_at_lock s) (load_before s) true (bad s)
-  | TRaw n => if existsb (String.eqb n) allow_raw then s else flag s ("raw file-system operation " ++ n)%string
+  | TRaw n => if (String.eqb n "time.Now" || existsb (String.eqb n) allow_raw)%bool then s
+              else flag s ("raw file-system operation " ++ n)%string
   | TLoopB => St (in_lock s) (nlocks s) (loaded s) (wsec s) (S (loop s)) (loop_at_lock s) (load_before s) (wrote s) (bad s)
   | TLoopE => St (in_lock s) (nlocks s) (loaded s) (wsec s) (pred (loop s)) (loop_at_lock s) (load_before s) (wrote s) (bad s)
   end.
@@ -48,6 +49,20 @@ Definition scan (allow_raw : list string) (p : list tok) : list string :=
   (if Nat.ltb 1 (nlocks s) then ["more than one lock section in one command"] else [])
   ++ (if (load_before s && wrote s)%bool then ["log read before the lock is taken, on a path that writes"] else [])
   ++ bad s.
+
+(** The clock: on a path that writes, every [time.Now()] is inside the lock section, so that stamps written to the
+    log are taken after everything already in it (the monotone-clock hypothesis of C05's history theorems). *)
+Fixpoint clock_outside (depth : nat) (p : list tok) : bool :=
+  match p with
+  | [] => false
+  | TLockB _ :: r => clock_outside (S depth) r
+  | TLockE :: r => clock_outside (pred depth) r
+  | TRaw n :: r => (Nat.eqb depth 0 && String.eqb n "time.Now") || clock_outside depth r
+  | _ :: r => clock_outside depth r
+  end.
+Definition clock_ok (n : string) : list string :=
+  concat (map (fun p => if (clock_outside 0 p && existsb (fun t => match t with TWrite => true | _ => false end) p)%bool
+                        then [("clock read outside the lock section in " ++ n)%string] else []) (entry n)).
 
 (** A mutating command: one exclusive section, load inside it before the single write, nothing raw. *)
 Definition mutating_ok (n : string) : list string := concat (map (scan []) (entry n)).
